@@ -56,6 +56,8 @@ class Tr:
 
     def cond(self, e, env):
         e = strip(e)
+        if e[0] == 'path' and len(e[1]) == 1 and env.get(e[1][0], (None, None))[1] == 'bool':
+            return env[e[1][0]][0]
         if e[0] == 'unary' and e[1] == '!':
             return '(negb %s)' % self.cond(e[2], env)
         if e[0] == 'mcall' and e[2] == 'is_empty' and selff(strip(e[1]), 'current_batch'):
@@ -84,6 +86,10 @@ class Tr:
 
         if st[0] == 'let':
             pat, e = st[1], strip(st[2])
+            if pat[0] == 'pid' and (e[0] == 'unary' or (e[0] == 'binary' and e[1] in ('>=', '>', '<=', '<', '==', '&&', '||')) or (e[0] == 'mcall' and e[2] == 'is_empty')):
+                n = pat[1]
+                env2 = dict(env); env2[n] = (n, 'bool')
+                return pad + 's <- bm_get ;;\n' + pad + 'let %s := %s in\n' % (n, self.cond(e, env)) + self.stmts(rest, env2, ind)
             if pat[0] == 'pid':
                 n = pat[1]
                 # self.current_batch.drain(..).collect()
